@@ -88,7 +88,10 @@ namespace vs
         {
             if (r.point != point || (r.tid >= 0 && r.tid != tid) || (r.occurrence && r.occurrence != k))
                 continue;
-            r.fired.fetch_add(1, std::memory_order_relaxed);
+            // a perturbation acts at most 64 times per case (a rule on a spin iteration would
+            // otherwise stretch a case from milliseconds to minutes)
+            if (r.fired.fetch_add(1, std::memory_order_relaxed) >= 64)
+                continue;
             if (r.action == 0)
             {
                 for (unsigned i = 0; i < r.amount; ++i)
